@@ -24,11 +24,33 @@ def parseColDefs (s : String) : List W.ColDef :=
     | [t, md, nl] => ⟨n t, n md, nl == "1"⟩
     | _ => default
 
-def showRowSpec (hasB hasA : Bool) (cols : List W.ColDef) (pb pa : List Bool)
+/-- `pad=1`: the unused high bits of the last byte of every bitmap are SET, as a real master leaves them
+    (`bitmap_set_all` for the column bitmaps, `null_bits = (1 << 8) - 1` in pack_row); the Spec writers of
+    GV/Spec/Events.lean clear them. Readers must not look at those bits. -/
+def bmBytes (pad : Bool) (bits : List Bool) : Bytes :=
+  if pad then W.bitmapBytes (bits ++ List.replicate ((8 - bits.length % 8) % 8) true) else W.bitmapBytes bits
+
+def imageBytesP (pad : Bool) (cols : List W.ColDef) (vals : List (Option W.CellVal)) : Bytes :=
+  bmBytes pad (vals.map (·.isNone)) ++
+    (List.zip cols vals).flatMap fun (c, v) => match v with | some x => W.cell c.typ c.md x | none => []
+
+def rowsBodyP (pad : Bool) (k : W.RowKind) (v2 : Bool) (idw id flags : Nat) (extra : Bytes) (cols : List W.ColDef)
+    (presentBefore presentAfter : List Bool) (rows : List (List (Option W.CellVal) × List (Option W.CellVal))) : Bytes :=
+  let hasBefore := k != .write
+  let hasAfter := k != .delete
+  Bytes.ofLE idw id ++ Bytes.ofLE 2 flags ++ (if v2 then Bytes.ofLE 2 (2 + extra.length) ++ extra else [])
+    ++ W.lenenc cols.length
+    ++ (if hasBefore then bmBytes pad presentBefore else [])
+    ++ (if hasAfter then bmBytes pad presentAfter else [])
+    ++ rows.flatMap fun (b, a) =>
+        (if hasBefore then imageBytesP pad (W.selectPresent presentBefore cols) b else []) ++
+        (if hasAfter then imageBytesP pad (W.selectPresent presentAfter cols) a else [])
+
+def showRowSpec (pad : Bool) (hasB hasA : Bool) (cols : List W.ColDef) (pb pa : List Bool)
     (r : List (Option W.CellVal) × List (Option W.CellVal)) : String :=
   let img (present : List Bool) (vals : List (Option W.CellVal)) : String × String :=
     let pc := W.selectPresent present cols
-    (toHex (W.bitmapBytes (vals.map (·.isNone))) ++ "/" ++ toString vals.length,
+    (toHex (bmBytes pad (vals.map (·.isNone))) ++ "/" ++ toString vals.length,
      toHex ((List.zip pc vals).flatMap fun (c, v) => match v with | some x => W.cell c.typ c.md x | none => []))
   let (nb, ib) := if hasB then img pb r.1 else ("/0", "")
   let (na, ia) := if hasA then img pa r.2 else ("/0", "")
@@ -81,12 +103,13 @@ def handleEvent (a : Args) : String :=
       let rows := (splitNE (arg a "rows") "~").map fun r => match r.splitOn "^" with
         | [b, c] => (parseImage b, parseImage c)
         | _ => ([], [])
-      let (ev, _) := W.event crc m (W.rowsEventType k v2) start (W.rowsBody k v2 idw (argNat a "id") (argNat a "rflags") (argHex a "extra") cols pb pa rows)
+      let pad := argBool a "pad"
+      let (ev, _) := W.event crc m (W.rowsEventType k v2) start (rowsBodyP pad k v2 idw (argNat a "id") (argNat a "rflags") (argHex a "extra") cols pb pa rows)
       let tm : TableMap := { flags := 0, database := [], name := [], types := cols.map (fun c => UInt8.ofNat c.typ),
                              canBeNull := ⟨[], 0⟩, metadata := cols.map (·.md) }
       let hasB := k != .write; let hasA := k != .delete
-      let bmS (has : Bool) (p : List Bool) : String := if has then toHex (W.bitmapBytes p) ++ "/" ++ toString cols.length else "/0"
-      let spec := s!"{argNat a "rflags"},{bmS hasB pb},{bmS hasA pa},[" ++ String.intercalate "|" (rows.map (showRowSpec hasB hasA cols pb pa)) ++ "]"
+      let bmS (has : Bool) (p : List Bool) : String := if has then toHex (bmBytes pad p) ++ "/" ++ toString cols.length else "/0"
+      let spec := s!"{argNat a "rflags"},{bmS hasB pb},{bmS hasA pa},[" ++ String.intercalate "|" (rows.map (showRowSpec pad hasB hasA cols pb pa)) ++ "]"
       s!"bytes={toHex ev} model={showRes showRows (viaStrip f ev (fun f e => M.rows f tm e))} id={showRes toString (viaStrip f ev tableID)} spec={spec} specid={argNat a "id"}"
   | _ => "bad-op"
 
